@@ -46,6 +46,15 @@ def check(state, ev, ctx, obs):
         # "Start" while not Idle is ignored
         return st == state and wr == [] and conn == 0 and close == 0
 
+    if ev == 'start_idlehold' and state != IDLE:
+        # a stale idle-hold expiry (the operator restarted the peer meanwhile): ignored in every other state
+        return st == state and wr == [] and conn == 0 and close == 0
+
+    if ev == 'close_done' and state != IDLE:
+        # the TCP close of the *previous* connection completes while the next attempt / session is already
+        # under way: not an FSM event, nothing changes
+        return st == state and wr == [] and conn == 0 and close == 0
+
     # ---- Idle -----------------------------------------------------------------------------------
     if state == IDLE:
         if ev == 'start_idlehold':
